@@ -9,6 +9,7 @@ other class; the set of open descriptors afterwards equals the set before.
 from __future__ import annotations
 
 import errno
+import time
 import gc
 import os
 import re
@@ -204,7 +205,77 @@ def _shard(shard, seed, tier):
     return part
 
 
+RESET_MODES = {"fork": {}, "thread": {"servertype": "ThreadingTCPServer"}, "thread+tls": {"tls": True, "servertype": "ThreadingTCPServer"}}
+
+
+def _shard_reset(shard, seed, tier):
+    """Real deployment, real client that reads 64 kB of a multi-megabyte document and then resets the connection
+    (or closes it politely and goes away).  The server -- every process of it -- survives, writes a log record
+    that names the client and the failure's own class and none naming another class, keeps no worker around,
+    and answers the next client."""
+    from .. import deploy, worlds
+
+    part = core.Partial()
+    mname = shard
+    mode = RESET_MODES[mname]
+    size = 6_000_000
+    text = b"".join(b"line %09d of the big text\n" % i for i in range(size // 27))
+    spec = {"huge.bin": bytes(range(256)) * (size // 256), "bigout.sh": ("exec", b"#!/bin/sh\nhead -c %d /dev/zero | tr '\\0' 'z'\n" % size), "hugec.txt.gz": worlds.gz(text), "f.txt": b"still here\n"}
+    srv = deploy.Server(spec, mode, tag="c20r")
+    own = (b"BrokenPipeError", b"ConnectionResetError", b"ConnectionAbortedError")
+    try:
+        if not srv.started:
+            part.violation("reset|%s|start" % mname, "deployment did not come up: %r" % srv.log()[-400:], {"kind": "reset", "mode": mname})
+            return part
+        cases = [("gopher", b"/huge.bin"), ("http", b"/huge.bin"), ("gopherp", b"/huge.bin"), ("gopher", b"/hugec.txt.gz"), ("http", b"/hugec.txt.gz"), ("gopher", b"/bigout.sh")]
+        if mode.get("tls"):
+            cases += [("sgopher", b"/huge.bin"), ("gemini", b"/hugec.txt.gz")]
+        for proto, sel in cases:
+            data, tls = rig.request(proto, sel)
+            mark = len(srv.log())
+            got, err = srv.fetch(data, tls, reset_after=65536)
+            time.sleep(0.6)
+            new = srv.log()[mark:]
+            bad = []
+            if not srv.alive():
+                bad.append(("server-died", "the server process ended after a client reset its connection (exit status %r)" % srv.proc.poll()))
+            recs = re.findall(rb"^(\S+) \[[^\]]*\] EXCEPTION (\w+)", new, re.M)
+            if tls:
+                # through TLS a vanished peer surfaces as one of the SSL layer's own I/O errors
+                recs = [(a, b"ConnectionResetError" if c in (b"SSLEOFError", b"SSLError", b"SSLSyscallError", b"SSLZeroReturnError") else c) for a, c in recs]
+            produced_by_child = sel in (b"/bigout.sh",) or (sel == b"/hugec.txt.gz" and not tls)
+            if not any(c in own for a, c in recs) and not produced_by_child:
+                bad.append(("not-logged", "no log record naming the client and its failure's class after the reset; new log lines: %r" % new[-400:]))
+            others = [c for a, c in recs if c not in own and c != b"timeout"]
+            if others:
+                bad.append(("other-class", "the client's reset is logged as %r: %r" % (sorted(set(others)), new[-400:])))
+            again, err2 = srv.fetch(b"/f.txt\r\n", False)
+            if again != b"still here\n":
+                bad.append(("no-longer-serving", "after the reset the next client gets %r (%s)" % (again[:60], err2)))
+            part.evaluations += 1
+            part.transitions += 2
+            part.state("reset", mname, proto, sel)
+            part.outcome("reset", mname, proto, sel, tuple(b[0] for b in bad))
+            for cls, det in bad:
+                part.violation("reset|%s|%s|%s|%s" % (mname, proto, sel.decode(), cls), det, {"kind": "reset", "mode": mname})
+            if not srv.alive():
+                break
+        time.sleep(0.5)
+        kids = srv.children()
+        if srv.alive() and kids:
+            time.sleep(1.0)
+            kids = srv.children()
+            if kids:
+                part.violation("reset|%s|workers-left" % mname, "worker/child processes still around after their clients went away: %r" % sorted(kids), {"kind": "reset", "mode": mname})
+    finally:
+        srv.stop()
+    return part
+
+
 def replay(case):
+    if case.get("kind") == "reset":
+        p = _shard_reset(case["mode"], 0, "quick")
+        return (p.violations[0][0], p.violations[0][1]) if p.violations else None
     global _w
     try:
         r, bad = _probe(case["kind"], case["proto"], case["sel"], case["k"], case["err"], case.get("once", False))
@@ -217,6 +288,7 @@ def replay(case):
 
 def run(ck):
     kinds = list(KINDS)
+    ck.pmap(_shard_reset, sorted(RESET_MODES))
     ck.pmap(_shard, core.chunks(kinds, core.NPROC))
     ck.rule = ("%d response kinds x every write index 1..W+1 (W = writes of the clean run) x {EPIPE, ECONNRESET, single-argument timeout}: the k-th and all later writes raise; "
                "distinct = (kind, error class, verdict, number of failed writes capped at 3)" % len(KINDS))
